@@ -963,6 +963,17 @@ def gen_keys(rng, n_random):
         b = [0] * lead + [rng.randrange(1, 256)] + rand_bytes(rng, 31 - lead)
         steps.append({"op": "key_import", "scheme": "secp", "bytes": b, "tag": "leading_zeros"})
         steps.append({"op": "key_import", "scheme": "ed", "bytes": b, "tag": "leading_zeros"})
+    # secrets that look like text: leading / trailing ASCII whitespace or NUL, a "0x" / "0X" start, all hex digits, all printable
+    texty = []
+    for c in (0x09, 0x0a, 0x0b, 0x0c, 0x0d, 0x20, 0x00, 0x22, 0x27):
+        texty.append([c] + rand_bytes(rng, 31))
+        texty.append(rand_bytes(rng, 31) + [c])
+        texty.append([c, c] + rand_bytes(rng, 28) + [c, c])
+    texty += [[0x30, 0x78] + rand_bytes(rng, 30), [0x30, 0x58] + rand_bytes(rng, 30), [ord(ch) for ch in "0123456789abcdefABCDEF0123456789"],
+              [ord(ch) for ch in "0x" + "a1" * 15], [rng.randrange(0x20, 0x7f) for _ in range(32)], [0x20] * 32, [0x0a] * 32, [0x30] * 32]
+    for b in texty:
+        steps.append({"op": "key_import", "scheme": "secp", "bytes": b, "tag": "texty"})
+        steps.append({"op": "key_import", "scheme": "ed", "bytes": b, "tag": "texty"})
     for ln in list(range(0, 32)) + list(range(33, 66)):
         steps.append({"op": "key_import", "scheme": "ed", "bytes": rand_bytes(rng, ln), "tag": "ed_len"})
         steps.append({"op": "key_import", "scheme": "secp", "bytes": rand_bytes(rng, ln), "tag": "secp_len"})
